@@ -144,7 +144,8 @@ Record request := mkQ {
   q_backend : bool;                        (* a backend is determined *)
   q_bresp : nat -> option (bool * Z);      (* backend answer: (beresp.cacheable, beresp.ttl) as vcl_fetch leaves them; None = fetch fails *)
   q_hit_ttl : nat -> option Z;             (* what vcl_hit assigns to obj.ttl, if it does *)
-  q_ops : nat -> list op                   (* rate-limit calls at the top of vcl_recv *)
+  q_ops : nat -> list op;                  (* rate-limit calls at the top of vcl_recv *)
+  q_errcode : scope -> nat -> option nat   (* the status an `error <code>;` statement of that subroutine / round assigns to obj.status *)
 }.
 
 Inductive xst := XNone | XHit | XMiss.      (* ctx.State: "NONE" / "HIT" / "MISS" *)
@@ -162,14 +163,22 @@ Record ctx := mkC {
   c_obs : list Z;            (* values logged by the rate-limit calls, newest first *)
   c_objttl : Z;              (* ctx.ObjectTTL: stays for the rest of the request once vcl_hit has set it *)
   c_pass : bool;             (* Interpreter.passed: this restart round went through vcl_pass *)
-  c_hit : option nat         (* ctx.CacheHitItem != nil, with its Hits *)
+  c_hit : option nat;        (* ctx.CacheHitItem != nil, with its Hits *)
+  c_objstatus : nat;         (* ctx.ObjectStatus: 500 until an `error <code>` assigns it; stays for the request *)
+  c_errobj : option nat;     (* ctx.Object is the synthetic object of ProcessError, with its status *)
+  c_respstatus : option nat  (* status of ctx.Response when it was cloned from that synthetic object *)
 }.
-Definition ctx0 : ctx := mkC 0 XNone false false false None [] [] 0 false None.
+Definition ctx0 : ctx := mkC 0 XNone false false false None [] [] 0 false None 500 None None.
 
-Definition call (orc : oracle) (n : dnode) (c : ctx) : ctx * option state :=
+Definition call (orc : oracle) (q : request) (n : dnode) (c : ctx) : ctx * option state :=
   let a := orc (scope_of n) (c_restarts c) in
+  (* ProcessErrorStatement: an `error <code>;` that passes its scope guard assigns obj.status *)
+  let st := match a, q_errcode q (scope_of n) (c_restarts c) with
+            | AErrorStmt, Some k => if mem_scope (scope_of n) error_stmt_scopes then k else c_objstatus c
+            | _, _ => c_objstatus c
+            end in
   (mkC (c_restarts c) (c_state c) (c_cached c) (c_obj c) (c_beresp c) (c_resp c)
-       ((n, c_restarts c, a) :: c_trace c) (c_obs c) (c_objttl c) (c_pass c) (c_hit c),
+       ((n, c_restarts c, a) :: c_trace c) (c_obs c) (c_objttl c) (c_pass c) (c_hit c) st (c_errobj c) (c_respstatus c),
    run_sub (scope_of n) (c_restarts c) a).
 
 Inductive node := NRecv | NHit | NMiss | NPass | NFetch | NError | NDeliver | NLog.
@@ -178,29 +187,32 @@ Inductive next := Goto (n : node) | Done | Fail.
 (* Interpreter.restart *)
 Definition do_restart (c : ctx) : ctx * next :=
   if max_varnish_restarts <? c_restarts c + 1 then (c, Fail)
-  else (mkC (S (c_restarts c)) (c_state c) (c_cached c) false false None (c_trace c) (c_obs c) (c_objttl c) (c_pass c) None, Goto NRecv).
+  else (mkC (S (c_restarts c)) (c_state c) (c_cached c) false false None (c_trace c) (c_obs c) (c_objttl c) (c_pass c) None (c_objstatus c) None None, Goto NRecv).
 
 Definition set_branch (c : ctx) (x : xst) (cached : bool) : ctx :=
-  mkC (c_restarts c) x cached (c_obj c) (c_beresp c) (c_resp c) (c_trace c) (c_obs c) (c_objttl c) (c_pass c) (c_hit c).
+  mkC (c_restarts c) x cached (c_obj c) (c_beresp c) (c_resp c) (c_trace c) (c_obs c) (c_objttl c) (c_pass c) (c_hit c) (c_objstatus c) (c_errobj c) (c_respstatus c).
 Definition set_obj (c : ctx) : ctx :=
-  mkC (c_restarts c) (c_state c) (c_cached c) true (c_beresp c) (c_resp c) (c_trace c) (c_obs c) (c_objttl c) (c_pass c) (c_hit c).
+  mkC (c_restarts c) (c_state c) (c_cached c) true (c_beresp c) (c_resp c) (c_trace c) (c_obs c) (c_objttl c) (c_pass c) (c_hit c) (c_objstatus c) (c_errobj c) (c_respstatus c).
 Definition set_beresp (c : ctx) : ctx :=
-  mkC (c_restarts c) (c_state c) (c_cached c) (c_obj c) true (c_resp c) (c_trace c) (c_obs c) (c_objttl c) (c_pass c) (c_hit c).
+  mkC (c_restarts c) (c_state c) (c_cached c) (c_obj c) true (c_resp c) (c_trace c) (c_obs c) (c_objttl c) (c_pass c) (c_hit c) (c_objstatus c) (c_errobj c) (c_respstatus c).
 Definition set_resp (c : ctx) : ctx :=
-  mkC (c_restarts c) (c_state c) (c_cached c) (c_obj c) (c_beresp c) (Some (c_state c, match c_hit c with Some h => h | None => 0 end)) (c_trace c) (c_obs c) (c_objttl c) (c_pass c) (c_hit c).
+  mkC (c_restarts c) (c_state c) (c_cached c) (c_obj c) (c_beresp c) (Some (c_state c, match c_hit c with Some h => h | None => 0 end)) (c_trace c) (c_obs c) (c_objttl c) (c_pass c) (c_hit c) (c_objstatus c) (c_errobj c) (if c_obj c then c_errobj c else None).
 Definition add_obs (c : ctx) (o : list Z) : ctx :=
-  mkC (c_restarts c) (c_state c) (c_cached c) (c_obj c) (c_beresp c) (c_resp c) (c_trace c) (rev o ++ c_obs c) (c_objttl c) (c_pass c) (c_hit c).
+  mkC (c_restarts c) (c_state c) (c_cached c) (c_obj c) (c_beresp c) (c_resp c) (c_trace c) (rev o ++ c_obs c) (c_objttl c) (c_pass c) (c_hit c) (c_objstatus c) (c_errobj c) (c_respstatus c).
 Definition set_objttl (c : ctx) (t : Z) : ctx :=
-  mkC (c_restarts c) (c_state c) (c_cached c) (c_obj c) (c_beresp c) (c_resp c) (c_trace c) (c_obs c) t (c_pass c) (c_hit c).
+  mkC (c_restarts c) (c_state c) (c_cached c) (c_obj c) (c_beresp c) (c_resp c) (c_trace c) (c_obs c) t (c_pass c) (c_hit c) (c_objstatus c) (c_errobj c) (c_respstatus c).
 Definition set_pass (c : ctx) (b : bool) : ctx :=
-  mkC (c_restarts c) (c_state c) (c_cached c) (c_obj c) (c_beresp c) (c_resp c) (c_trace c) (c_obs c) (c_objttl c) b (c_hit c).
+  mkC (c_restarts c) (c_state c) (c_cached c) (c_obj c) (c_beresp c) (c_resp c) (c_trace c) (c_obs c) (c_objttl c) b (c_hit c) (c_objstatus c) (c_errobj c) (c_respstatus c).
 Definition set_hit (c : ctx) (h : option nat) : ctx :=
-  mkC (c_restarts c) (c_state c) (c_cached c) (c_obj c) (c_beresp c) (c_resp c) (c_trace c) (c_obs c) (c_objttl c) (c_pass c) h.
+  mkC (c_restarts c) (c_state c) (c_cached c) (c_obj c) (c_beresp c) (c_resp c) (c_trace c) (c_obs c) (c_objttl c) (c_pass c) h (c_objstatus c) (if h then None else c_errobj c) (c_respstatus c).
+Definition set_errobj (c : ctx) : ctx :=
+  mkC (c_restarts c) (c_state c) (c_cached c) true (c_beresp c) (c_resp c) (c_trace c) (c_obs c) (c_objttl c) (c_pass c)
+      (c_hit c) (c_objstatus c) (Some (c_objstatus c)) (c_respstatus c).
 Definition set_cache (p : persistent) (cch : cache) : persistent := mkP cch (p_rc p) (p_pb p).
 
 (* ProcessHash: only `hash` or falling off the end is accepted *)
-Definition process_hash (orc : oracle) (tag : dnode) (c : ctx) : ctx * bool :=
-  let (c1, r) := call orc tag c in
+Definition process_hash (orc : oracle) (q : request) (tag : dnode) (c : ctx) : ctx * bool :=
+  let (c1, r) := call orc q tag c in
   match r with
   | Some NONE | Some (St SHash) => (c1, true)
   | _ => (c1, false)
@@ -209,16 +221,16 @@ Definition process_hash (orc : oracle) (tag : dnode) (c : ctx) : ctx * bool :=
 Definition process_recv (orc : oracle) (q : request) (c : ctx) (p : persistent) : ctx * persistent * next :=
   let r0 := c_restarts c in
   let (p1, obs) := run_ops (q_now q) (q_ops q r0) p in
-  let (c1, r) := call orc DRecv (set_pass (add_obs c obs) false) in
+  let (c1, r) := call orc q DRecv (set_pass (add_obs c obs) false) in
   match r with
   | None => (c1, p1, Fail)
   | Some (St SPass) =>
-      let (c3, ok) := process_hash orc DHashP (set_branch c1 XMiss false) in
+      let (c3, ok) := process_hash orc q DHashP (set_branch c1 XMiss false) in
       (c3, p1, if ok then Goto NPass else Fail)
   | Some (St SError) => (c1, p1, Goto NError)
   | Some (St SRestart) => let (c2, n) := do_restart c1 in (c2, p1, n)
   | Some (St SLookup) | Some NONE =>
-      let (c3, ok) := process_hash orc DHashL c1 in
+      let (c3, ok) := process_hash orc q DHashL c1 in
       if negb ok then (c3, p1, Fail)
       else match cache_get (q_now q) (q_hash q r0) (p_cache p1) with
            | (Some it, cch) => (set_hit (set_obj (set_branch c3 XHit true)) (Some (hits it)), set_cache p1 cch, Goto NHit)
@@ -229,7 +241,7 @@ Definition process_recv (orc : oracle) (q : request) (c : ctx) (p : persistent) 
 
 Definition process_hit (orc : oracle) (q : request) (c : ctx) (p : persistent) : ctx * persistent * next :=
   let r0 := c_restarts c in
-  let (c0, r) := call orc DHit c in
+  let (c0, r) := call orc q DHit c in
   let c1 := match q_hit_ttl q r0 with Some t => set_objttl c0 t | None => c0 end in
   match r with
   | None => (c1, p, Fail)
@@ -247,7 +259,7 @@ Definition process_hit (orc : oracle) (q : request) (c : ctx) (p : persistent) :
 
 Definition process_miss (orc : oracle) (q : request) (c : ctx) (p : persistent) : ctx * persistent * next :=
   if negb (q_backend q) then (c, p, Fail) else
-  let (c1, r) := call orc DMiss c in
+  let (c1, r) := call orc q DMiss c in
   match r with
   | None => (c1, p, Fail)
   | Some NONE | Some (St SFetch) => (c1, p, Goto NFetch)
@@ -260,7 +272,7 @@ Definition process_miss (orc : oracle) (q : request) (c : ctx) (p : persistent) 
 Definition process_pass (orc : oracle) (q : request) (c0 : ctx) (p : persistent) : ctx * persistent * next :=
   let c := set_pass c0 true in
   if negb (q_backend q) then (c, p, Fail) else
-  let (c1, r) := call orc DPass c in
+  let (c1, r) := call orc q DPass c in
   match r with
   | None => (c1, p, Fail)
   | Some NONE | Some (St SPass) => (c1, p, Goto NFetch)
@@ -275,7 +287,7 @@ Definition process_fetch (orc : oracle) (q : request) (c : ctx) (p : persistent)
   match q_bresp q r0 with
   | None => (c, p, Fail)
   | Some (cacheable, ttl) =>
-      let (c1, r) := call orc DFetch (set_beresp c) in
+      let (c1, r) := call orc q DFetch (set_beresp c) in
       match r with
       | None => (c1, p, Fail)
       | Some st =>
@@ -293,7 +305,7 @@ Definition process_fetch (orc : oracle) (q : request) (c : ctx) (p : persistent)
   end.
 
 Definition process_error (orc : oracle) (q : request) (c : ctx) (p : persistent) : ctx * persistent * next :=
-  let (c1, r) := call orc DError (set_obj c) in
+  let (c1, r) := call orc q DError (set_errobj c) in
   match r with
   | None => (c1, p, Fail)
   | Some NONE | Some (St SDeliver) | Some (St SDeliverStale) => (c1, p, Goto NDeliver)
@@ -307,7 +319,7 @@ Definition process_deliver (orc : oracle) (q : request) (c : ctx) (p : persisten
   match c_resp c0 with
   | None => (c0, p, Fail)
   | Some _ =>
-      let (c1, r) := call orc DDeliver c0 in
+      let (c1, r) := call orc q DDeliver c0 in
       match r with
       | None => (c1, p, Fail)
       | Some NONE | Some (St SDeliver) => (c1, p, Goto NLog)
@@ -317,7 +329,7 @@ Definition process_deliver (orc : oracle) (q : request) (c : ctx) (p : persisten
   end.
 
 Definition process_log (orc : oracle) (q : request) (c : ctx) (p : persistent) : ctx * persistent * next :=
-  let (c1, r) := call orc DLog c in
+  let (c1, r) := call orc q DLog c in
   match r with
   | Some NONE | Some (St SDeliver) => (c1, p, Done)
   | _ => (c1, p, Fail)
@@ -355,6 +367,7 @@ Record report := mkR {
   r_cached : bool;
   r_xcache : option xst;       (* client_response.headers["x-cache"] *)
   r_xhits : option nat;        (* client_response.headers["x-cache-hits"] *)
+  r_status : option nat;       (* client_response.status_code when the response is the synthetic object of vcl_error *)
   r_error : bool;
   r_obs : list Z
 }.
@@ -369,7 +382,7 @@ Definition run_request (orc : oracle) (p : persistent) (q : request) : res (repo
   match run sm_fuel orc q NRecv ctx0 p with
   | OK (c, p', err) =>
       OK (mkR (rev (c_trace c)) (c_restarts c) (c_cached c) (option_map fst (c_resp c)) (option_map snd (c_resp c))
-              err (rev (c_obs c)), p')
+              (match c_resp c with Some _ => c_respstatus c | None => None end) err (rev (c_obs c)), p')
   | Err => Err
   | Crash => Crash
   | OutOfFuel => OutOfFuel
